@@ -289,6 +289,14 @@ def run(ctx):
     floor(ctx, 'functions/objects that can gain volume', n_capacity, 2)
     n_cmp = rounded_capacity_compare(ctx, 'C03.R1')
     floor(ctx, 'capacity comparisons', n_cmp, 2)
+    # the capacity a vessel is created with is the one the caller stated: the constructors hand the parsed value on
+    # under the unit it is expressed in (engine U on Container.__init__ / Plate.__init__)
+    from .c14 import scan_ctor
+    for q_ in ('Container.__init__', 'Plate.__init__'):
+        uscan_sc = scan_ctor(ctx, q_)
+        from .. import uscan as _uscan
+        _uscan.report_sinks(ctx, lambda cat: 'C03.R1' if cat in ('to-storage', 'to-storage-dim', 'capacity-unit', 'qstr',
+                                                                 'storage-label') else None, uscan_sc)
 
     # ------------------------------------------------------------------ R2 sufficiency per unit branch
     tr, fft, ratio_val, loop, loop_state = sufficiency(ctx, 'C03.R2')
